@@ -67,6 +67,7 @@ class UnitResult:
     assumptions: List[str] = field(default_factory=list)
     cmd: str = ""
     stderr_tail: str = ""
+    prop: str = ""
 
 
 def _run_verus(path: str, timeout: int, extra: List[str]) -> tuple:
@@ -135,6 +136,7 @@ def run_unit(spec_path: str, repo: str, libdir: str, outdir: str, timeout: int =
     os.makedirs(outdir, exist_ok=True)
     gen = os.path.join(outdir, u.name + ".rs")
     res = UnitResult(u.name, gen)
+    res.prop = u.prop
     t0 = time.time()
     try:
         b = extract.UnitBuilder(repo, libdir, u)
